@@ -111,6 +111,22 @@ Definition one_hot (y : list Z) : option (list (list nat)) :=
   let u := uniques y in
   collect (map (fun label => option_map (unit_row (length u)) (index_of label u)) y).
 
+(* Label containers.  `for label in y` iterates the first axis, np.unique flattens: a container of shape (n,)
+   (list or ndarray) IS the list of its n labels; a container of shape (n,1) — a column ndarray, or a nested list
+   [[l0],[l1],...], which is what split_dataset hands back for (n,1) targets — is read row by row, row i = [y_i], and
+   denotes the same list of n labels (each `label` is then a 1-element array/list, for which `uniques.index(label)`
+   still finds the label).  A row of any other width makes `uniques.index` raise (ambiguous truth value): None. *)
+Inductive labels := Flat (y : list Z) | Column (rows : list (list Z)).
+
+Definition labels_of (c : labels) : option (list Z) :=
+  match c with
+  | Flat y => Some y
+  | Column rows => collect (map (fun r => match r with [x] => Some x | _ => None end) rows)
+  end.
+
+Definition one_hot_c (c : labels) : option (list (list nat)) :=
+  match labels_of c with Some y => one_hot y | None => None end.
+
 (* ---------------------------------------------------------------- DataLoader (data.py:66-100) *)
 Section Loader.
   Variables A B : Type.
